@@ -157,6 +157,32 @@ pub fn op_import(args: &[Sexp]) -> String {
     }
 }
 
+/// `gdsraw.flat`: import, then `Layout::flatten` of the cell of every structure, in structure order
+pub fn op_flat(args: &[Sexp]) -> String {
+    let g = match args.get(0).and_then(p_lib) { Some(x) => x, None => return "bad-op".into() };
+    let lib = match raw::Library::from_gds(&g, None) { Ok(l) => l, Err(_) => return "err".into() };
+    let mut rows = vec![];
+    let mut unsupported = false;
+    {
+        let layers = lib.layers.read().unwrap();
+        for st in &g.structs {
+            let cell = match lib.cells.iter().find(|c| c.read().unwrap().name == st.name) { Some(c) => c.clone(), None => { unsupported = true; break; } };
+            let c = cell.read().unwrap();
+            // general angles are outside the exact model
+            let right = |l: &raw::Layout| l.insts.iter().all(|i| i.angle.map(|a| a == 0.0 || a == 90.0 || a == 180.0 || a == 270.0).unwrap_or(true));
+            if !lib.cells.iter().all(|c| c.read().unwrap().layout.as_ref().map(|l| right(l)).unwrap_or(true)) { unsupported = true; break; }
+            let elems = match c.layout.as_ref().map(|l| l.flatten()) { Some(Ok(e)) => e, _ => { unsupported = true; break; } };
+            let items: Vec<String> = elems.iter().map(|e| {
+                let layer = layers.get(e.layer).unwrap();
+                format!("({} {} {})", layer.layernum, layer.num(&e.purpose).unwrap_or(-1), shape_s(&e.inner))
+            }).collect();
+            rows.push(format!("(flat {} {})", of_bytes(st.name.as_bytes()), items.join(" ")).replace(" )", ")"));
+        }
+    }
+    break_cycles(&lib);
+    if unsupported { "unsupported".into() } else { format!("ok ({})", rows.join(" ")) }
+}
+
 // ------------------------------------------------------------------ oracles
 type P2 = (i64, i64);
 /// canonical polygon form of a shape region: rect -> its 4 corners; rotated to start at the smallest vertex, orientation kept
@@ -690,5 +716,6 @@ pub fn gen_c06(thorough: bool, rng: &mut Rng, out: &mut Vec<String>) {
         let z = GdsDateTime { year: 0, month: 0, day: 0, hour: 0, minute: 0, second: 0 };
         lib.set_all_dates(z);
         out.push(format!("gdsraw.import {}", lib_s(&lib)));
+        if i % 2 == 0 { out.push(format!("gdsraw.flat {}", lib_s(&lib))); }
     }
 }
